@@ -143,6 +143,14 @@ impl<'a> Hist<'a> {
             log: self.log.clone(),
         });
     }
+    /// Record a violation whose consequences are confined (the caller keeps checking the rest
+    /// of the history). Deduplicated per (signature, history).
+    pub fn violate_continue(&mut self, sig: &str, detail: String) {
+        if self.out.violations.iter().any(|v| v.sig == sig && v.hist == self.idx) {
+            return;
+        }
+        self.violate(sig, detail);
+    }
     /// assert-style helper; returns cond
     pub fn check(&mut self, cond: bool, sig: &str, detail: impl FnOnce() -> String) -> bool {
         self.out.oracle_checks += 1;
@@ -251,17 +259,21 @@ pub fn run_monitor(m: &dyn Monitor, cfg: &RunCfg) -> (Out, f64) {
         }
     };
 
-    if cfg.threads <= 1 || cfg.only_hist.is_some() {
-        worker(&mut total);
-    } else {
+    {
+        // always run on spawned threads with a large stack: nested contract calls inside the
+        // chain simulator use deep native recursion
+        let nthreads = if cfg.only_hist.is_some() { 1 } else { cfg.threads.max(1) };
         let outs: Vec<Out> = std::thread::scope(|s| {
-            let handles: Vec<_> = (0..cfg.threads)
+            let handles: Vec<_> = (0..nthreads)
                 .map(|_| {
-                    s.spawn(|| {
-                        let mut o = Out::default();
-                        worker(&mut o);
-                        o
-                    })
+                    std::thread::Builder::new()
+                        .stack_size(1 << 30)
+                        .spawn_scoped(s, || {
+                            let mut o = Out::default();
+                            worker(&mut o);
+                            o
+                        })
+                        .expect("spawn worker")
                 })
                 .collect();
             handles
